@@ -568,6 +568,11 @@ func (hash *Hash) UnmarshalJSON(b []byte) error {
 	if err != nil {
 		return err
 	}
+	if len(b) == 0 {
+		// the empty hash, as marshaled for an EventList without events
+		*hash = nil
+		return nil
+	}
 	_, mh, err := multihash.MHFromBytes(b)
 	if err != nil {
 		return err
